@@ -16,3 +16,37 @@ func TestTables(t *testing.T) {
 		t.Fatalf("%d commands", len(Commands))
 	}
 }
+
+func TestCompose(t *testing.T) {
+	for _, up := range []bool{false, true} {
+		for n := 0; n <= 40; n++ {
+			for v := 0; v < 5; v++ {
+				c := Compose(up, n, v)
+				b := CmdBytes(c)
+				if len(b) != n {
+					t.Fatalf("compose %v %d %d: %d bytes", up, n, v, len(b))
+				}
+				back, ok := FrameCmds(up, b, nil)
+				if !ok || len(back) != len(c) {
+					t.Fatalf("frame %v %d", up, n)
+				}
+			}
+		}
+		for cid, ex := range examplePayload[up] {
+			cmd := Lookup(up, cid)
+			if cmd == nil || len(ex) != cmd.Size {
+				t.Fatalf("example %v %x", up, cid)
+			}
+			f := DecodeFields(cmd.Fields, ex)
+			enc, ok := EncodeFields(cmd.Fields, cmd.Size, f)
+			if !ok || string(enc) != string(ex) {
+				t.Fatalf("example %v %x not canonical: %x vs %x", up, cid, enc, ex)
+			}
+			for _, fl := range cmd.Fields {
+				if !fl.Must(f[fl.Name]) {
+					t.Fatalf("example %v %x field %s outside must-accept", up, cid, fl.Name)
+				}
+			}
+		}
+	}
+}
